@@ -65,6 +65,8 @@ pub enum Role {
     SilentPut,
     /// like Silent, but the whole node dies as soon as the first request has been read
     DieOnReq,
+    /// like Silent, but forcibly closes every connection as soon as it is reported established
+    DropAfterConnect,
     /// litep2p node without the Kademlia protocol
     NoKad,
 }
@@ -86,6 +88,9 @@ pub enum Ctl {
     /// 1 = die when a connection with `peer` is established, 2 = die when data (record / provider) arrives
     DropOn(u8, PeerId),
     Kill,
+    /// for the given number of milliseconds every task switch of this node's runtime is followed by a short busy
+    /// pause (a loaded machine: events are handled in bursts)
+    Jitter(u64),
 }
 
 #[allow(dead_code)]
@@ -146,6 +151,8 @@ struct SilentKad {
     ackfind: bool,
     /// tells the node loop to die when the first message has been read
     die: Option<mpsc::UnboundedSender<()>>,
+    /// force_close() the connection on ConnectionEstablished
+    close_on_connect: bool,
 }
 
 #[async_trait::async_trait]
@@ -173,6 +180,10 @@ impl UserProtocol for SilentKad {
             tokio::select! {
                 ev = service.next() => match ev {
                     Some(TransportEvent::SubstreamOpened { substream, .. }) => reads.push(arm(substream)),
+                    Some(TransportEvent::ConnectionEstablished { peer, .. }) if self.close_on_connect => {
+                        let _ = service.force_close(peer);
+                        self.log.push(json!({"k": "forceclose", "node": self.node}));
+                    }
                     Some(_) => {}
                     None => return Ok(()),
                 },
@@ -277,9 +288,15 @@ async fn node_main(
             builder = builder.with_libp2p_kademlia(kc);
             kad = Some(kh);
         }
-        Role::Silent | Role::SilentPut | Role::DieOnReq => {
+        Role::Silent | Role::SilentPut | Role::DieOnReq | Role::DropAfterConnect => {
             let die = if cfg.role == Role::DieOnReq { Some(die_tx.clone()) } else { None };
-            builder = builder.with_user_protocol(Box::new(SilentKad { log: log.clone(), node, ackfind: cfg.role == Role::SilentPut, die }));
+            builder = builder.with_user_protocol(Box::new(SilentKad {
+                log: log.clone(),
+                node,
+                ackfind: cfg.role == Role::SilentPut,
+                die,
+                close_on_connect: cfg.role == Role::DropAfterConnect,
+            }));
         }
         Role::NoKad => {}
     }
@@ -383,6 +400,15 @@ async fn node_main(
                     return;
                 }
                 Some(Ctl::DropOn(m, p)) => drop_on = (m, Some(p)),
+                Some(Ctl::Jitter(ms)) => {
+                    tokio::spawn(async move {
+                        let t = Instant::now();
+                        while t.elapsed() < Duration::from_millis(ms) {
+                            std::thread::sleep(Duration::from_micros(1500));
+                            tokio::task::yield_now().await;
+                        }
+                    });
+                }
                 Some(Ctl::AddKnown(p, addrs)) => {
                     if let Some(k) = kad.as_mut() {
                         k.add_known_peer(p, addrs).await;
